@@ -1416,6 +1416,7 @@ func (c *Conn) waitResponse(d *connDeadline, id int32) (deadline time.Time, size
 			// one it expects. This is a sign that the data we are reading on
 			// the wire is corrupted and the connection needs to be closed.
 			err = io.ErrNoProgress
+			c.conn.Close()
 			c.rlock.Unlock()
 			break
 		}
